@@ -39,7 +39,7 @@ class PlugC(_Base):
     pass
 
 
-ACTIVE_TEXT = [None, "True", "False", "false", "0", "yes"]
+ACTIVE_TEXT = [None, "True", "False", "false", "0", "yes", False, True]     # the last two: bools given in code (is_active then fails)
 
 
 def loader(ka: int, kb: int, kc: int, oa: int, ob: int, oc: int, aa: int, ab: int) -> str:
@@ -47,7 +47,7 @@ def loader(ka: int, kb: int, kc: int, oa: int, ob: int, oc: int, aa: int, ab: in
     load_plugins over three custom plugins, each importable / not importable / failing to construct, switched on or
     off by configuration text, with UNBOUNDED symbolic order values (ties included): the result is exactly the
     importable, constructible, active ones, stably sorted by order.
-    PRE: 0 <= ka <= 2 and 0 <= kb <= 2 and 0 <= kc <= 2 and 0 <= aa <= 5 and 0 <= ab <= 5
+    PRE: 0 <= ka <= 2 and 0 <= kb <= 2 and 0 <= kc <= 2 and 0 <= aa <= 7 and 0 <= ab <= 7
     POST: _ == ""
     """
     world.begin_path()
@@ -58,15 +58,20 @@ def loader(ka: int, kb: int, kc: int, oa: int, ob: int, oc: int, aa: int, ab: in
     saved = pl.DEEP_PLUGINS
     pl.DEEP_PLUGINS = []
     try:
-        names, want = [], []
+        names, want, optional = [], [], []
         cfg = {"APP_ROOT": "/app"}
         for (cls, kind, order, act) in (("PlugA", ka, oa, aa), ("PlugB", kb, ob, ab), ("PlugC", kc, oc, 0)):
             SPEC[cls] = {"ctor_raises": kind == 2, "order": order}
             names.append("harness.c20_plugins." + (cls if kind != 1 else cls + "Missing"))
             if ACTIVE_TEXT[act] is not None:
                 cfg["PLUGIN_" + cls.upper()] = ACTIVE_TEXT[act]
-            active = ACTIVE_TEXT[act] is None or ACTIVE_TEXT[act].lower() in ("yes", "true", "t", "1", "y")
-            if kind == 0 and active:
+            if isinstance(ACTIVE_TEXT[act], bool):
+                active = None       # is_active() fails on a bool: that plugin may be skipped or loaded, the OTHERS must load
+            else:
+                active = ACTIVE_TEXT[act] is None or ACTIVE_TEXT[act].lower() in ("yes", "true", "t", "1", "y")
+            if kind == 0 and active is None:
+                optional.append(cls)
+            elif kind == 0 and active:
                 want.append((cls, order))
         config = ConfigService(cfg, tracepoints=TracepointConfigService())
         try:
@@ -75,6 +80,7 @@ def loader(ka: int, kb: int, kc: int, oa: int, ob: int, oc: int, aa: int, ab: in
             world.reached()
             return "C20:loader-raised:" + type(e).__name__
         world.reached()
+        got = [p for p in got if type(p).__name__ not in optional]
         want_sorted = sorted(want, key=lambda p: p[1] or 0)     # sorted() is stable
         if [type(p).__name__ for p in got] != [n for n, _ in want_sorted]:
             if sorted(type(p).__name__ for p in got) != sorted(n for n, _ in want):
@@ -262,7 +268,7 @@ MUTANTS = {"sort_desc": _mut_sort_desc, "ignore_active": _mut_ignore_active, "de
 CONDITIONS = [
     dict(fn="loader", cubes=["ka == %d and kb == %d and kc == %d" % (a, b, c) for a in range(3) for b in range(3) for c in range(3)],
          twins=["reach", "mutant:sort_desc@ka == 0 and kb == 0 and kc == 0", "mutant:ignore_active@ka == 0 and kb == 0 and kc == 0"],
-         bounds="3 custom plugins x {importable, not importable, constructor raises} x 6 activation texts (2 plugins) x UNBOUNDED symbolic order values"),
+         bounds="3 custom plugins x {importable, not importable, constructor raises} x 8 activation settings incl. bools given in code, on which is_active() itself fails (2 plugins) x UNBOUNDED symbolic order values"),
     dict(fn="isolation", cubes=["role == %d and who == %d" % (r, w) for r in range(7) for w in range(3)],
          twins=["reach", "mutant:decorators_unguarded@role == 1 and who == 0"],
          bounds="7 callback roles x failing plugin first/second/both x 1-2 hits; 2 plugins of each of 5 plugin types"),
